@@ -83,18 +83,26 @@ theorem selT_step (sw climb : Bool) (w : TWorld) (ps : Store → Promise) (op : 
       · exact apply1_other _ w.tree .childB s ⟨w.node.cls, 0⟩ o _ _ hs (h s)
   | ckpt c v =>
     have h1 := apply1_sel sw climb w.tree .main w.node (.save c v) (ps .main) (h .main)
-    by_cases hc : c = .bothFail
-    · subst hc
-      simp only [tstep, if_true]
-      have hcls := apply1_cls ⟨⟨.atomicReplace, sw⟩, climb⟩ w.tree .main w.node (.save .bothFail v)
+    cases hc : c.fails
+    · simp only [tstep, hc]
+      cases s
+      · simp only [TOp.proj, promise_single]; exact h1
+      · simp only [TOp.proj, hc, promise]
+        exact apply1_other _ w.tree .main .recovery w.node _ _ _ (by decide) (h .recovery)
+      · simp only [TOp.proj, promise]
+        exact apply1_other _ w.tree .main .childA w.node _ _ _ (by decide) (h .childA)
+      · simp only [TOp.proj, promise]
+        exact apply1_other _ w.tree .main .childB w.node _ _ _ (by decide) (h .childB)
+    · simp only [tstep, hc, if_true]
+      have hcls := apply1_cls ⟨⟨.atomicReplace, sw⟩, climb⟩ w.tree .main w.node (.save c v)
       cases s
       · simp only [TOp.proj, promise_single]
         exact apply1_other _ _ .recovery .main _ _ _ _ (by decide) h1
-      · simp only [TOp.proj, if_true, promise_single]
-        have h2 := apply1_other ⟨⟨.atomicReplace, sw⟩, climb⟩ w.tree .main .recovery w.node (.save .bothFail v) _ _
+      · simp only [TOp.proj, hc, if_true, promise_single]
+        have h2 := apply1_other ⟨⟨.atomicReplace, sw⟩, climb⟩ w.tree .main .recovery w.node (.save c v) _ _
           (by decide) (h .recovery)
-        have := apply1_sel sw climb _ .recovery (apply1 ⟨⟨.atomicReplace, sw⟩, climb⟩ w.tree .main w.node (.save .bothFail v)).2.1
-          (.save .bothFail v) (ps .recovery) (by rw [hcls]; exact h2)
+        have := apply1_sel sw climb _ .recovery (apply1 ⟨⟨.atomicReplace, sw⟩, climb⟩ w.tree .main w.node (.save c v)).2.1
+          (.save c v) (ps .recovery) (by rw [hcls]; exact h2)
         rw [hcls] at this
         exact this
       · simp only [TOp.proj, promise]
@@ -103,15 +111,6 @@ theorem selT_step (sw climb : Bool) (w : TWorld) (ps : Store → Promise) (op : 
       · simp only [TOp.proj, promise]
         exact apply1_other _ _ .recovery .childB _ _ _ _ (by decide)
           (apply1_other _ w.tree .main .childB w.node _ _ _ (by decide) (h .childB))
-    · simp only [tstep, hc, if_false]
-      cases s
-      · simp only [TOp.proj, promise_single]; exact h1
-      · simp only [TOp.proj, hc, if_false, promise]
-        exact apply1_other _ w.tree .main .recovery w.node _ _ _ (by decide) (h .recovery)
-      · simp only [TOp.proj, promise]
-        exact apply1_other _ w.tree .main .childA w.node _ _ _ (by decide) (h .childA)
-      · simp only [TOp.proj, promise]
-        exact apply1_other _ w.tree .main .childB w.node _ _ _ (by decide) (h .childB)
   | ckptCrash c v k =>
     simp only [tstep]
     by_cases hs : s = .main
@@ -238,7 +237,7 @@ theorem tstep_frame (tc : TCfg) (w : TWorld) (op : TOp) (s : Store) (h : op.touc
       have hr : s ≠ .recovery := by
         rcases h.2 with h2 | h2
         · simpa using h2
-        · exact absurd hc (by simpa using h2)
+        · rw [hc] at h2; cases h2
       rw [apply1_files_other tc _ .recovery s _ _ hr, apply1_files_other tc _ .main s _ _ hm]
     · exact apply1_files_other tc _ .main s _ _ hm
   | ckptCrash c v k =>
